@@ -173,7 +173,15 @@ def run_case(ctx, desc):
             if k == "register_cell":
                 ci = op[2]
                 if name_of(ci) in reg[ti]:
-                    return None
+                    # a registration under a name that is taken is refused (documented ValueError) - and leaves the cell that
+                    # owns the name, its monitors and its listings exactly as they were (judged by the checks that follow)
+                    ctx.case(f"register_duplicate/{tk}/{cells[ci][0]}")
+                    ctx.count("rejected_duplicate_registrations")
+                    try:
+                        trainers[ti].register_cell(name_of(ci), w.cell(cells[ci]))
+                    except ValueError:
+                        return None
+                    return ("register_cell.duplicate_name_accepted", "a second registration under a taken name was accepted")
                 ctx.case(f"register_cell/{tk}/{cells[ci][0]}/n{len(reg[ti])}/other{sum(len(r) for j, r in enumerate(reg) if j != ti)}")
                 trainers[ti].register_cell(name_of(ci), w.cell(cells[ci]))
                 reg[ti][name_of(ci)] = ci
